@@ -179,6 +179,18 @@ def _split_first_payload(base, idx):
     return T("call", ("Index::index", ("[%s]" % elem, "RangeFrom<usize>")), (x, rng), *c.a[2:])
 
 
+def _first_payload(base, idx):
+    """`(x.first() as Some).0` is `&x[0]`: the canonical index term."""
+    if not (idx == 0 and base.op == "downcast" and base.a[1] == "Some"):
+        return None
+    c = base.a[0]
+    while c.op in ("ref", "deref"):
+        c = c.a[0]
+    if not (c.op == "call" and isinstance(c.a[0], tuple) and c.a[0][0] == "slice::<impl [T]>::first" and len(c.a[1]) == 1):
+        return None
+    return mk_ref(T("index", mk_deref(c.a[1][0]), T("const", "int", 0, "usize")))
+
+
 def _try_payload(base, idx):
     """`(Try::branch(x) as Continue).0` is the payload of x's success variant: `(x as Some).0` / `(x as Ok).0`."""
     if not (idx == 0 and base.op == "downcast" and base.a[1] == "Continue"):
@@ -223,6 +235,9 @@ def mk_field(base, idx, name):
     if sp is not None:
         return sp
     sp = _moved_payload(base, idx)
+    if sp is not None:
+        return sp
+    sp = _first_payload(base, idx)
     if sp is not None:
         return sp
     if base.op == "agg":
